@@ -43,9 +43,11 @@ type seg struct {
 
 var rawNames = []string{"a", "b", "a/b", "a b", "x$y", "req.time", "\xc3\xa9.x", "g\tg", "c,d"}
 var tagPool = []string{"k:v", "env:prod", "host:h1", "host:h2", "t", "hostx:1", "host:", "u:1", "w", "z:9", "Host:H", "cr\r", "q:1\r"}
-var invalidLines = []string{"bad", "a:1|x", ":1|c", "a:b|c", "a:1|c|@x", "_e{1,2}:a|b", "a:1", "$$:1|c", "a:NaN|g", "a:1|c|@0", "_x", "a:1|msx", "|", "a|1:c", "a:1|c\r", "a:1|g|@0.5\r",
+var invalidLines = []string{"a:oops|c|@0.1", "a:NaN|g|@0.25", "a:1|c|@0.5|@0", "a:x|ms|@0.1|#k:v", "bad", "a:1|x", ":1|c", "a:b|c", "a:1|c|@x", "_e{1,2}:a|b", "a:1", "$$:1|c", "a:NaN|g", "a:1|c|@0", "_x", "a:1|msx", "|", "a|1:c", "a:1|c\r", "a:1|g|@0.5\r",
 	// rejected lines of 60..100 bytes (what a log line may want to shorten)
-	"bad" + strings.Repeat("x", 61), "bad" + strings.Repeat("y", 62), "a:1|" + strings.Repeat("z", 66), "q" + strings.Repeat(":", 73), "bad" + strings.Repeat("w", 74), "bad" + strings.Repeat("v", 75), strings.Repeat("u", 100)}
+	"bad" + strings.Repeat("x", 61), "bad" + strings.Repeat("y", 62), "a:1|" + strings.Repeat("z", 66), "q" + strings.Repeat(":", 73), "bad" + strings.Repeat("w", 74), "bad" + strings.Repeat("v", 75), strings.Repeat("u", 100),
+	// ... and around 256 bytes
+	"bad" + strings.Repeat("a", 252), "bad" + strings.Repeat("b", 253), "bad" + strings.Repeat("c", 254), "bad" + strings.Repeat("d", 255), "bad" + strings.Repeat("e", 256), strings.Repeat("f", 300), strings.Repeat("g", 1023), strings.Repeat("h", 1024), strings.Repeat("i", 1025)}
 var pieces = []string{"a:1|c|", "a:1|g||#x", "x:1|c|#", "a:1|c|#,,", "_e{1,1}:a|b|", "_e{0,0}:|", "a:1e400|g", "a:0x1p3|ms", "  :1|c", "a:1|s|@2", "\xff:1|c", "a:1|c|@1e-400", "_e{1,1}:a|b|p:x", "a:1|h|#host:", "_e{1,2}:t|x\r", "u:m\r|s", "\r"}
 
 func knownLine(t *rapid.T, ns string, ignoreHost bool, ip string, ts int64) seg {
